@@ -36,6 +36,13 @@ def run_one(check, scn):
 
     try:
         res = check.run(scn)
+        wide = (scn.get("world") or {}).get("wide") if isinstance(scn.get("world"), dict) else None
+        if wide:
+            res.count("probe:wide_world")
+            if wide.get("persons"):
+                res.count("probe:wide_population")
+            if wide.get("special"):
+                res.count("probe:wide_special_values")
     except Exception as e:  # noqa: BLE001
         frames = tb.extract_tb(e.__traceback__)
         # (frames of the simulated environment - dsim/seams.py raising an OS error the way
